@@ -55,6 +55,10 @@ claim("C20","exploration","runtime monitor: edit-script oracle over scratch git 
  "Each case builds a two-commit git repository (git CLI) from a generated multi-file program and a random script of documented breaking and compatible edits; the diagnostics the script implies are known by construction and must equal, as a multiset of (file, kind, names), what the real thriftbreak binary prints in both output modes on three runs each, together with the exit status.",
  "edit kinds whose classification the documentation leaves open are not generated", "DESIGN.md §5 C20")
 
+claim("C06","exploration","runtime monitor: the real thriftrw binary and the Go compiler as observers over generated valid (must be accepted, must compile) and hostile-name (accepted => compiles, else error) multi-file programs",
+ "Programs valid by construction, and the same programs with names replaced by Go keywords, initialisms and names of generated methods/helpers, are pushed through the real CLI under random option sets and layouts into a scratch module that replaces thriftrw with the working tree; go build attributes every diagnostic to its program. A valid program rejected, an accepted program that does not compile, or a crash instead of an error is a violation.",
+ "SAFE rules of Appendix A define 'valid'; go vet is not run", "DESIGN.md §5 C06")
+
 NOT_IMPL = "check not implemented yet in this round (statement about the machinery, not the technique)"
 
 def main():
